@@ -22,6 +22,12 @@
 #include <stdalign.h>
 #include <stdatomic.h>
 
+#include <core/verif.h>
+#ifdef ROOTSIM_VERIF
+#undef spin_pause
+#define spin_pause() VERIF_YIELD(VP_QUEUE_INSERT_CAS_FAIL)
+#endif
+
 /// Determine an ordering between two elements in a queue
 #define q_elem_is_before(ma, mb) ((ma).t < (mb).t || ((ma).t == (mb).t && msg_is_before_extended(ma.m, mb.m)))
 
@@ -91,6 +97,7 @@ void msg_queue_global_fini(void)
  */
 static inline void msg_queue_insert_queued(void)
 {
+	VERIF_YIELD(VP_QUEUE_SWAP);
 	struct lp_msg *m = atomic_exchange_explicit(&queues[rid].list, NULL, memory_order_acquire);
 	while(m != NULL) {
 		struct q_elem qe = {.t = m->dest_t, .m = m};
@@ -133,6 +140,7 @@ void msg_queue_insert(struct lp_msg *msg)
 {
 	_Atomic(struct lp_msg *) *list_p = &queues[lid_to_rid(msg->dest)].list;
 	msg->next = atomic_load_explicit(list_p, memory_order_relaxed);
+	VERIF_YIELD(VP_QUEUE_INSERT_LOADED);
 	while(unlikely(!atomic_compare_exchange_weak_explicit(list_p, &msg->next, msg, memory_order_release,
 	    memory_order_relaxed)))
 		spin_pause();
